@@ -11,7 +11,7 @@ ASSUMPTIONS = [
 ]
 OUTSIDE = ['nr_exp > 5 (6 in thorough)', 'the text round trip of grid files', 'rounding of generated coordinates']
 BOUNDS = {'quick': 'nr_exp 3 (anisotropic_factor 0..2) and 4 (0..1), ntheta_exp in {-1, 3}, divideBy2 0..1; refinement radius modes; file lengths 0..4',
-          'thorough': 'nr_exp 2..6, ntheta_exp in {-1, 1..5}, anisotropic_factor -1..nr_exp, divideBy2 0..2'}
+          'thorough': 'nr_exp 2..5, ntheta_exp in {-1, 2, 4}, anisotropic_factor -1..min(nr_exp,3), divideBy2 0..2; level count for nr <= 1100, ntheta <= 2100 (the first table, nr_exp up to 6 and all anisotropy factors, did not finish in 40 minutes)'}
 
 
 def _load_vector(m, this, filename, vec):
@@ -48,10 +48,10 @@ HOOKS = {'files': hook_files}
 def jobs(tier, seed):
     J = []
     q = tier == 'quick'
-    nrx = (3, 4) if q else (2, 3, 4, 5, 6)
+    nrx = (3, 4) if q else (2, 3, 4, 5)
     for nr_exp in nrx:
-        for nt_exp in ((-1, 3) if q else (-1, 1, 2, 3, 4, 5)):
-            for aniso in (range(0, 3) if q else range(-1, nr_exp + 1)):
+        for nt_exp in ((-1, 3) if q else (-1, 2, 4)):
+            for aniso in (range(0, 3) if q else range(-1, min(nr_exp, 3) + 1)):
                 for div2 in ((0, 1) if q else (0, 1, 2)):
                     if q and (nt_exp == 3) != (div2 == 1) and aniso > 0:
                         continue
